@@ -284,6 +284,7 @@ func SetupNewUser(user *ptttype.UserecRaw) error {
 	if uid != 0 {
 		return ptttype.ErrUserIDAlreadyExists
 	}
+	verifPoint("reg.checked", user, 0)
 
 	/* Lazy method : 先找尋已經清除的過期帳號 */
 	uid, err = cache.DoSearchUserRaw(&ptttype.EMPTY_USER_ID, nil)
@@ -310,6 +311,7 @@ func SetupNewUser(user *ptttype.UserecRaw) error {
 		return err
 	}
 	defer func() { _ = cmbbs.PasswdUnlock() }()
+	verifPoint("reg.locked", user, 0)
 
 	uid, err = cache.DoSearchUserRaw(&ptttype.EMPTY_USER_ID, nil)
 	if err != nil {
@@ -330,6 +332,7 @@ func SetupNewUser(user *ptttype.UserecRaw) error {
 		log.Errorf("SetupNewUser: unable to passwdSyncUpdate: uid: %v userID: %v e: %v", uid, user.UserID, err)
 		return err
 	}
+	verifPoint("reg.beforeUnlock", user, uid)
 
 	return nil
 }
